@@ -163,14 +163,16 @@ func (g *Gen) indexChain(d int) []Stmt {
 	stm := []Stmt{local1(base+"0", &Table{Items: []TItem{{Kind: 1, Name: "lvl0", E: num(0)}}})}
 	last := base + "0"
 	if g.R.Bool() {
-		stm = append(stm, &CallS{E: call("setmetatable", v(last), &Table{Items: []TItem{{Kind: 1, Name: "__index", E: &Func{Params: []string{"t", "k"}, Body: []Stmt{emit(str("fn-index"), v("k")), ret(bin("..", str("f:"), v("k")))}}}}})})
+		stm = append(stm, &CallS{E: call("setmetatable", v(last), &Table{Items: []TItem{{Kind: 1, Name: "__index", E: &Func{Params: []string{"t", "k"}, Body: []Stmt{emit(str("fn-index"), v("k"), bin("==", v("t"), v(base+"0")), call("rawget", v("t"), str("lvl0"))), ret(bin("..", str("f:"), v("k")))}}}}})})
 	}
 	for i := 1; i <= depth; i++ {
 		cur := base + itoa(i)
 		stm = append(stm, local1(cur, call("setmetatable", &Table{Items: []TItem{{Kind: 1, Name: "lvl" + itoa(i), E: num(float64(i))}}}, &Table{Items: []TItem{{Kind: 1, Name: "__index", E: v(last)}}})))
 		last = cur
 	}
-	return append(stm, emit(idx(v(last), "lvl0"), idx(v(last), "lvl1"), idx(v(last), "lvl"+itoa(depth)), idx(v(last), "nope"), call("rawget", v(last), str("lvl0"))))
+	dyn := g.fresh("dk")
+	return append(stm, emit(idx(v(last), "lvl0"), idx(v(last), "lvl1"), idx(v(last), "lvl"+itoa(depth)), idx(v(last), "nope"), call("rawget", v(last), str("lvl0"))),
+		local1(dyn, str("dynkey")), emit(&Index{E: v(last), K: v(dyn)}))
 }
 
 // concatEqMeta: __concat with numbers and strings on either side, __eq with different handlers.
@@ -211,4 +213,80 @@ func (g *Gen) coTransfer(d int) []Stmt {
 		out = append(out, emit(call("coroutine.resume", append([]Expr{v(co)}, rv...)...)), emit(call("coroutine.status", v(co))))
 	}
 	return out
+}
+
+
+// closeBeforeReturn: a loop body that ends in `if c then return end` (not taken) must still close
+// the locals its closures captured; the loop lives in a function so that return is legal.
+func (g *Gen) closeBeforeReturn(d int) []Stmt {
+	g.use("closure-loop-ending-in-return")
+	col, fs := g.fresh("collect"), g.fresh("cfs")
+	body := []Stmt{local1("x", bin("*", v("i"), num(10))),
+		set(&Index{E: v("out"), K: v("i")}, &Func{Body: []Stmt{set(v("x"), bin("+", v("x"), num(1))), ret(v("x"))}}),
+		&If{C: bin(">", v("i"), num(100)), Then: []Stmt{ret(v("out"))}}}
+	var loop Stmt = &NumFor{X: "i", A: num(1), B: num(3), Body: body}
+	if g.R.Bool() {
+		loop = &Do{Body: []Stmt{local1("i", num(0)), &While{C: bin("<", v("i"), num(3)), Body: append([]Stmt{set(v("i"), bin("+", v("i"), num(1)))}, body...)}}}
+	}
+	return []Stmt{&LocalFunc{X: col, F: &Func{Body: []Stmt{local1("out", &Table{}), loop, ret(v("out"))}}},
+		local1(fs, call(col)), g.clobber(),
+		emit(&Call{F: &Index{E: v(fs), K: num(1)}}, &Call{F: &Index{E: v(fs), K: num(2)}}, &Call{F: &Index{E: v(fs), K: num(3)}}, &Call{F: &Index{E: v(fs), K: num(1)}})}
+}
+
+// untilClosure: a closure that appears only in the until-condition captures a body local; every
+// iteration has its own instance.
+func (g *Gen) untilClosure(d int) []Stmt {
+	g.use("closure-only-in-until")
+	keep, ks, k := g.fresh("keep"), g.fresh("ks"), g.fresh("uk")
+	return []Stmt{local1(ks, &Table{}), local1(k, num(0)),
+		&LocalFunc{X: keep, F: &Func{Params: []string{"f"}, Body: []Stmt{set(&Index{E: v(ks), K: bin("+", &Un{Op: "#", A: v(ks)}, num(1))}, v("f")), ret(call("f"))}}},
+		&Repeat{Body: []Stmt{set(v(k), bin("+", v(k), num(1))), local1("x", bin("*", v(k), num(10)))},
+			C: bin(">=", call(keep, &Func{Body: []Stmt{ret(v("x"))}}), num(float64(10*g.R.Range(2, 3))))},
+		g.clobber(), emit(v(k), &Call{F: &Index{E: v(ks), K: num(1)}}, &Call{F: &Index{E: v(ks), K: num(2)}})}
+}
+
+// protectNil: setmetatable(o, nil) on a protected metatable must raise too.
+func (g *Gen) protectNil(d int) []Stmt {
+	g.use("meta-protect-nil")
+	o := g.fresh("po")
+	return []Stmt{local1(o, call("setmetatable", &Table{}, &Table{Items: []TItem{{Kind: 1, Name: "__metatable", E: str("locked")}, {Kind: 1, Name: "__index", E: &Func{Params: []string{"t", "k"}, Body: []Stmt{ret(str("dflt"))}}}}})),
+		emit(call("pcall", &Func{Body: []Stmt{ret(call("setmetatable", v(o), &Nil{}))}})), emit(call("getmetatable", v(o)), idx(v(o), "anything")),
+		local1(o+"u", call("setmetatable", &Table{}, &Table{Items: []TItem{{Kind: 1, Name: "__index", E: &Func{Params: []string{"t", "k"}, Body: []Stmt{ret(str("u"))}}}}})),
+		emit(idx(v(o+"u"), "a")), &CallS{E: call("setmetatable", v(o+"u"), &Nil{})}, emit(idx(v(o+"u"), "a"), call("getmetatable", v(o+"u")))}
+}
+
+// pcallAtDepth: a protected call that fails at every call depth 0..n (non-tail recursion), then
+// the state keeps working — exercises frame-stack segment boundaries.
+func (g *Gen) pcallAtDepth(d int) []Stmt {
+	g.use("pcall-at-depth")
+	dive := g.fresh("dive")
+	n := g.R.Range(8, 17)
+	return []Stmt{&LocalFunc{X: dive, F: &Func{Params: []string{"n"}, Body: []Stmt{
+		&If{C: bin("==", v("n"), num(0)), Then: []Stmt{&Local{Names: []string{"ok", "e"}, Es: []Expr{call("pcall", v("error"), &Table{Items: []TItem{{Kind: 1, Name: "code", E: num(1)}}})}}, ret(v("ok"), idx(v("e"), "code"))}},
+		&Local{Names: []string{"a", "b"}, Es: []Expr{call(dive, bin("-", v("n"), num(1)))}}, ret(v("a"), bin("+", v("b"), num(1)))}}},
+		&NumFor{X: "dd", A: num(0), B: num(float64(n)), Body: []Stmt{emit(v("dd"), call(dive, v("dd")))}}}
+}
+
+// goBodyCoroutine: coroutines whose body is a host function.
+func (g *Gen) goBodyCoroutine(d int) []Stmt {
+	g.use("co-go-function-body")
+	co := g.fresh("gc")
+	return []Stmt{local1(co, call("coroutine.create", idx(v("math"), "max"))),
+		emit(call("coroutine.resume", v(co), g.litInt(), g.litInt(), g.litInt())), emit(call("coroutine.status", v(co)), call("coroutine.running")),
+		emit(call("coroutine.resume", v(co))),
+		emit(&Call{F: call("coroutine.wrap", idx(v("string"), "rep")), Args: []Expr{str("ab"), num(2)}}),
+		emit(call("coroutine.resume", call("coroutine.create", &Func{Body: []Stmt{emit(call("coroutine.resume", call("coroutine.create", idx(v("math"), "abs")), num(-3))), ret(call("coroutine.running") /* inside */)}})))}
+}
+
+// tailVararg: vararg functions with named parameters reached by tail calls with few arguments.
+func (g *Gen) tailVararg(d int) []Stmt {
+	g.use("tailcall-vararg")
+	tv, c1, o := g.fresh("tv"), g.fresh("tc"), g.fresh("to")
+	return []Stmt{&LocalFunc{X: tv, F: &Func{Params: []string{"a", "b"}, Vararg: true, Body: []Stmt{ret(v("a"), v("b"), call("select", str("#"), &Varargs{}), &Varargs{})}}},
+		&LocalFunc{X: c1, F: &Func{Vararg: true, Body: []Stmt{ret(call(tv, &Varargs{}))}}},
+		emit(call(c1)), emit(call(c1, num(1))), emit(call(c1, num(1), num(2), num(3))),
+		&LocalFunc{X: tv + "a", F: &Func{Params: []string{"a"}, Vararg: true, Body: []Stmt{ret(idx(v("arg"), "n"), &Index{E: v("arg"), K: num(1)})}}},
+		emit(&Call{F: &Paren{E: &Func{Body: []Stmt{ret(call(tv+"a", num(1), num(2), num(3)))}}}}),
+		local1(o, &Table{}), &FuncStmt{Target: v(o), Method: "m", F: &Func{Params: []string{"p"}, Vararg: true, Body: []Stmt{ret(bin("==", v("self"), v(o)), v("p"), call("select", str("#"), &Varargs{}))}}},
+		emit(&Call{F: &Paren{E: &Func{Body: []Stmt{ret(&Meth{O: v(o), M: "m"})}}}}), emit(&Call{F: &Paren{E: &Func{Body: []Stmt{ret(&Meth{O: v(o), M: "m", Args: []Expr{num(7), num(8)}})}}}})}
 }
